@@ -237,7 +237,7 @@ mod verif_replay_search_wt {
             let got = (mem.net_addr.net_addr().to_owned(), mem.available_slots, mem.subscription_start, mem.subscription_expiry, mem.status, set(&mem.pending_appointments), set(&mem.invalid_appointments));
             let want = (ADDR[e.addr].to_owned(), e.avail, e.start, e.expiry, e.status, e.pending.clone(), e.invalid.clone());
             if got != want {
-                return Err(format!("{{C05,C18}} tower {t} in memory: {:?}, expected {:?}", got, want));
+                return Err(format!("{{C05,C14,C18}} tower {t} in memory: {:?}, expected {:?}", got, want));
             }
             let derived = if e.proof.is_some() {
                 TowerStatus::Misbehaving
@@ -252,7 +252,7 @@ mod verif_replay_search_wt {
                 rec.appointments.keys().map(|l| w.loc(l)).collect::<BTreeSet<usize>>(), rec.misbehaving_proof.as_ref().map(|p| w.loc(&p.locator)));
             let want = (ADDR[e.addr].to_owned(), e.avail, e.start, e.expiry, derived, e.pending.clone(), e.invalid.clone(), e.receipts.clone(), e.proof);
             if got != want {
-                return Err(format!("{{C05,C18}} tower {t} in the database: {:?}, expected {:?}", got, want));
+                return Err(format!("{{C05,C14,C18}} tower {t} in the database: {:?}, expected {:?}", got, want));
             }
             if rec.pending_appointments.len() != e.pending.len() || rec.invalid_appointments.len() != e.invalid.len() || !bodies_intact {
                 return Err(format!("{{C05,C18}} tower {t}: a pending or invalid appointment lost its body or reads back altered"));
